@@ -7,7 +7,8 @@ CHECKS = {
     text='Bounded symbolic model checking of the real MIR: get_type_size for every type variant with symbolic width, '
          'storage_slots_used against the Solidity layout rule for ALL size vectors up to the length bound (Z3 decides every '
          'path for all values), and the two pack detectors on symbolic contracts/structs against the sorted-order oracle; '
-         'every verdict is a solver verdict within the stated bounds, counterexamples are replayed on the compiled code.',
+         'every verdict is a solver verdict within the stated bounds, counterexamples are replayed on the compiled code. Beyond the symbolic bound: every list of 5 '
+         '(thorough: 6) members over five sizes through the compiled detectors against the layout rule (exhaustive over that family, decided natively).',
     note='Trusted: rustc MIR dump = compiled program; Z3; contracts for Vec/HashSet/slice::sort (validated natively on sampled '
          'paths every run). Bounds: vector length <=5 (quick) / <=7 (thorough), members <=3/4.',
     technique='symbolic execution of MIR + Z3 (bounded), native replay', design='6/C10'),
